@@ -104,31 +104,42 @@ def _assigned_to(call: ast.Call, scope: ast.AST) -> t.Optional[str]:
 
 
 def l1_recipe(repo: Repo, chk: Check) -> None:
+    """compute_l1_key on its path summary: L0 seed = KDF(root key, ctx(RKID, L0, -1, -1)); the function returns
+    KDF(L0 seed, ctx(RKID, L0, 31, -1) || target SD); label KDS service, 512 bit, the caller's hash algorithm."""
+    from sa.pathsum import Summary
+
+    from .util import args_of, concat_parts
+
     f = repo.func("_gkdi.compute_l1_key")
     chk.analysed(f)
-    calls = _kdf_calls(f)
-    if len(calls) != 2:
-        raise AnalysisError("compute_l1_key: expected 2 kdf calls")
     p = f.params  # target_sd, root_key_id, l0, root_key, algorithm
-    for c in calls:
-        chk.count("kdf sites")
-        _kdf_common(repo, chk, f, c)
-    a0 = _ctx_args(calls[0], f)
-    want0 = [p[1], p[2], "-1", "-1"]
-    chk.ob("O3", Site.of(f, calls[0], "L0 seed"), a0 == want0 and unparse(calls[0].args[1]) == p[3], "L0 seed = KDF(root key, context(RKID, L0, -1, -1))" if a0 == want0 and unparse(calls[0].args[1]) == p[3] else f"L0 seed is KDF({unparse(calls[0].args[1])}, context{a0})")
-    ctx = calls[1].args[3]
-    if isinstance(ctx, ast.Name):
-        from sa.flow import ReachingDefs as _RD
-
-        d_ = _RD(f).single_def(ctx.id, calls[1])
-        if d_ is not None and d_.kind == "assign" and d_.index is None and d_.value is not None:
-            ctx = d_.value
-    ok1 = isinstance(ctx, ast.BinOp) and isinstance(ctx.op, ast.Add) and isinstance(ctx.left, ast.Call) and unparse(ctx.left.func) == "compute_kdf_context" and [unparse(x) for x in ctx.left.args] == [p[1], p[2], "31", "-1"] and unparse(ctx.right) == p[0]
-    seed_name = _assigned_to(calls[0], f.node)
-    ok1 = ok1 and unparse(calls[1].args[1]) == seed_name
-    chk.ob("O3", Site.of(f, calls[1], "L1(31) seed"), ok1, "L1(31) = KDF(L0 seed, context(RKID, L0, 31, -1) || SD)" if ok1 else f"L1 seed is KDF({unparse(calls[1].args[1])}, {unparse(ctx)})")
-    rets = [n for n in body_nodes(f.node) if isinstance(n, ast.Return)]
-    chk.ob("O3", Site.of(f, rets[0]), len(rets) == 1 and rets[0].value is calls[1], "returns the L1(31) seed")
+    rets = Summary(f).returning()
+    if not rets:
+        raise AnalysisError("compute_l1_key: no returning path")
+    for ps in rets:
+        calls = [c for c in ps.calls("kdf") if ps.text(t.cast(ast.Call, c.tree).func) == "kdf"]
+        site = Site.of(f, ps.exit_node)
+        if len(calls) != 2:
+            chk.ob("O3", site, False, f"compute_l1_key makes {len(calls)} kdf calls on a path, the recipe has two (L0 seed, L1 seed)")
+            continue
+        inner, outer = calls
+        for c, what in ((inner, "L0 seed"), (outer, "L1(31) seed")):
+            chk.count("kdf sites")
+            a = args_of(repo, f, t.cast(ast.Call, c.tree))
+            okc = ps.text(a.get("algorithm")) == p[4] and ps.text(a.get("label")) == "KDS_SERVICE_LABEL" and a.get("length") is not None and repo.try_fold(t.cast(ast.expr, a["length"]), f.mod) == (True, 64)
+            chk.ob("O3", Site.of(f, c.node, f"{what}: kdf parameters"), okc, "hash algorithm passed through, label = KDS service, 512 bit" if okc else f"kdf(algorithm={ps.text(a.get('algorithm'))}, label={ps.text(a.get('label'))}, length={ps.text(a.get('length'))})")
+        a0 = args_of(repo, f, t.cast(ast.Call, inner.tree))
+        ctx0 = a0.get("context")
+        c0 = [ps.text(x) for x in ctx0.args] if isinstance(ctx0, ast.Call) and ps.text(ctx0.func) == "compute_kdf_context" else None
+        ok0 = c0 == [p[1], p[2], "-1", "-1"] and ps.text(a0.get("secret")) == p[3]
+        chk.ob("O3", Site.of(f, inner.node, "L0 seed"), ok0, "L0 seed = KDF(root key, context(RKID, L0, -1, -1))" if ok0 else f"L0 seed is KDF({ps.text(a0.get('secret'))}, context{c0})")
+        a1 = args_of(repo, f, t.cast(ast.Call, outer.tree))
+        parts = concat_parts(a1.get("context"))
+        c1 = [ps.text(x) for x in parts[0].args] if len(parts) == 2 and isinstance(parts[0], ast.Call) and ps.text(parts[0].func) == "compute_kdf_context" else None
+        ok1 = c1 == [p[1], p[2], "31", "-1"] and len(parts) == 2 and ps.text(parts[1]) == p[0] and a1.get("secret") is not None and ps.key(a1["secret"]) == ps.key(inner.tree)
+        chk.ob("O3", Site.of(f, outer.node, "L1(31) seed"), ok1, "L1(31) = KDF(L0 seed, context(RKID, L0, 31, -1) || SD)" if ok1 else f"L1 seed is KDF({ps.text(a1.get('secret'))[:60]}, {ps.text(a1.get('context'))[:80]})")
+        okr = ps.key(ps.value) == ps.key(outer.tree)
+        chk.ob("O3", site, okr, "returns the L1(31) seed" if okr else f"returns {ps.text(ps.value)[:60]}")
 
 
 def consumer(repo: Repo, chk: Check) -> None:
